@@ -260,8 +260,8 @@ func ParseContractFile(path string) (*PkgContracts, error) {
 					fc.Pure = true
 				case "opt":
 					fs := strings.Fields(s.text)
-					if len(fs) == 2 {
-						fc.Opts[fs[0]] = fs[1]
+					if len(fs) >= 2 {
+						fc.Opts[fs[0]] = strings.TrimSpace(strings.TrimPrefix(strings.TrimSpace(s.text), fs[0]))
 					} else if len(fs) == 1 {
 						fc.Opts[fs[0]] = "1"
 					}
